@@ -1250,22 +1250,44 @@ func (s *c13) ruleM8() {
 			if !ok || g.Name() != "nullBytes" {
 				return
 			}
-			notExist, _ := an.GuardedBy(in, func(r an.Rel) bool {
+			isNotExist := func(r an.Rel) bool {
 				if r.Op != token.ILLEGAL || !r.Truth {
 					return false
 				}
 				cl, ok := r.X.(*ssa.Call)
 				return ok && cl.Call.StaticCallee() != nil && cl.Call.StaticCallee().Name() == "IsNotExist"
-			})
+			}
+			notExist, _ := an.GuardedBy(in, isNotExist)
+			viaHelper := false
+			if !notExist && guardedAtAllCalls(c.P, fn, isNotExist, 0) {
+				// the "missing source" arm was moved into a helper called only on that edge
+				notExist, viaHelper = true, true
+			}
 			if !notExist {
 				return
 			}
 			n++
-			w := an.Query{Fn: fn, Target: func(x ssa.Instruction) bool { return x == in },
-				Barrier: func(x ssa.Instruction) bool {
-					arg, ok := isStat(x)
-					return ok && fromOut(arg)
-				}}.Find()
+			statOut := func(x ssa.Instruction) bool {
+				arg, ok := isStat(x)
+				return ok && fromOut(arg)
+			}
+			w := an.Query{Fn: fn, Target: func(x ssa.Instruction) bool { return x == in }, Barrier: statOut}.Find()
+			if w != nil && viaHelper {
+				// ... unless every caller looked before calling the helper
+				all := true
+				for caller, sites := range c.P.Callers(fn) {
+					for _, site := range sites {
+						site := site
+						q := an.Query{Fn: caller, Target: func(x ssa.Instruction) bool { return x == site.(ssa.Instruction) }, Barrier: statOut}
+						if q.Find() != nil {
+							all = false
+						}
+					}
+				}
+				if all {
+					w = nil
+				}
+			}
 			c.Check("M8", "missing-source-means-null-only-if-not-already-moved@"+an.FnName(fn), in.Pos(), w == nil,
 				"null is recorded for an output whose source path does not exist without looking for the file at its destination under outs/: after a kill between the rename into outs/ and the link back, the second post-processing run (mrp runs it again on restart) records null although the file is there; "+c.WitnessString(w))
 		})
